@@ -35,7 +35,7 @@ BUDGET = {'quick': 240, 'thorough': 3000}
 
 def shards(tier):
     if tier == 'quick':
-        sh = e1.std_shards(tier, with_p=True, with_big=True)
+        sh = e1.std_shards(tier, with_p=True, with_big=True, with_hist=True)
         sh += space.w_shards(sizes=(31, 65), kinds=('ordinal',))
     else:
         sh = e1.std_shards(tier, with_p=True, with_big=True, extra_thorough_shapes=((4, 5), (5, 4)))
@@ -119,6 +119,24 @@ def check_case(case, ctr):
         ctr['calls'] += 1
         if got2 != exp or len(c2.lattice) != len(exp):
             bad('concept-set-after-sublattice-request', sorted(map(_pp, exp)), sorted(map(_pp, got2)))
+    # neighbour lists handed out by Context.neighbors() and emptied by the caller BEFORE the
+    # lattice is first requested
+    if case.variant == 'fresh' and case.labeling == space.ASC and case.n * case.m <= 12:
+        c3 = case.fresh_ctx()
+        for r in range(0, min(case.n, 3) + 1):
+            for sub in itertools.combinations(case.objs, r):
+                for raw in (True, False):
+                    try:
+                        handed = c3.neighbors(sub, raw=raw)
+                        if isinstance(handed, list):
+                            del handed[:]
+                    except Exception:
+                        pass
+        got4 = {(frozenset(c.extent), frozenset(c.intent)) for c in c3.lattice}
+        ctr['calls'] += 1
+        if got4 != exp or len(c3.lattice) != len(exp):
+            bad('concept-set-after-editing-handed-out-neighbor-lists', sorted(map(_pp, exp)),
+                sorted(map(_pp, got4)))
     # interleaving with sibling contexts over the same labels (lazy lattice computed later)
     if case.labeling == space.ASC and case.n * case.m <= 16:
         older, a, newer, iref = e1.sibling_schedule(case)
